@@ -93,7 +93,7 @@ def gen_params(g, name):
         p |= {"init": g.choice([1.0, 2.0]), "sigma": g.choice([0.2, 0.5]), "mu": g.choice([0.0, 0.1]), "lam": g.choice([68.0, 0.0, 5.0, 500.0]),
               "mean_up": g.choice([0.02, 0.1, 0.5]), "mean_down": g.choice([0.05, 0.2, 2.0]), "p_up": g.choice([0.5, 0.0, 1.0, 0.3])}
     elif name == "local_volatility":
-        p |= {"init": g.choice([1.0, 2.0]), "a": g.choice([0.2, 0.0, 0.5]), "b": g.choice([0.0, 0.1, -0.05]), "c": g.choice([0.0, 0.3])}
+        p |= {"init": g.choice([1.0, 2.0]), "a": g.choice([0.2, 0.0, 0.5, 3.0]), "b": g.choice([0.0, 0.1, -0.05]), "c": g.choice([0.0, 0.3])}
     else:
         p |= {"s0": g.choice([1.0, 2.0]), "v0": g.choice([0.04, 0.1]), "alpha": g.choice([-0.4, -0.2, -0.45, 0.1]), "rho": g.choice([-0.9, 0.0, 0.5]),
               "eta": g.choice([1.9, 0.5]), "n": max(2, n), "xi": g.choice([0.04, 0.2])}
